@@ -367,6 +367,34 @@ func (x *Exec) loopVar(ce *CEnv, name string) *Val {
 					}
 				}
 			}
+			// no definition inside the loop: the variable is not modified by the
+			// loop, so the definition that reaches the loop header is wanted -- among
+			// the definitions whose block dominates the header, the innermost one
+			// (e.g. the phi of an enclosing loop rather than the initial `y := 0`)
+			var bestV *Val
+			var bestB *ssa.BasicBlock
+			for _, c := range cands {
+				in, ok := c.v.(ssa.Instruction)
+				var db *ssa.BasicBlock
+				if ok {
+					db = in.Block()
+				} else {
+					db = fn.Blocks[0]
+				}
+				if db != ce.loop.header && !db.Dominates(ce.loop.header) {
+					continue
+				}
+				v := x.evalPure(ce, c.v, 0)
+				if v == nil {
+					continue
+				}
+				if bestB == nil || bestB == db || bestB.Dominates(db) {
+					bestV, bestB = v, db
+				}
+			}
+			if bestV != nil {
+				return bestV
+			}
 			for _, c := range cands {
 				if v := x.evalPure(ce, c.v, 0); v != nil {
 					return v
